@@ -336,7 +336,7 @@ Section MutFuzzy.
         now apply NoDup_app_l in NDms. }
       rewrite Etop, map_map in NDtop. exact NDtop.
     - (* complete up to the cap *)
-      intros Hcond. set (w := e_canon e) in *.
+      intros k0 e Hin0 Hne Hcond. set (w := e_canon e) in *.
       assert (Hw : In w cands).
       { apply filter_In. split; [unfold mut_words; apply in_map_iff; now exists (k0, e)|].
         destruct Hcond as [Hd|[Hl Hd]]; [apply (in_window_of_lev qn qn)|apply (in_window_of_lev qn ql)]; auto. }
@@ -349,3 +349,213 @@ Section MutFuzzy.
         intros x Hx. specialize (Hall (proj x)). cbn [proj snd] in Hall. apply Hall. rewrite Etop. now apply in_map.
   Qed.
 End MutFuzzy.
+
+(* ------------------------------------------------------------------------------------------ *)
+(** * the automaton stream contract *)
+Lemma enum_from_in {A} (l : list A) : forall n i a,
+  In (i, a) (enum_from n l) <-> n <= i /\ nth_error l (i - n) = Some a.
+Proof.
+  induction l as [|x l IH]; intros n i a; cbn [enum_from In].
+  - split; [tauto|]. intros [_ H]. destruct (i - n); discriminate.
+  - rewrite IH. split.
+    + intros [H|[H1 H2]].
+      * injection H as <- <-. rewrite Nat.sub_diag. split; [lia|reflexivity].
+      * split; [lia|]. replace (i - n) with (S (i - S n)) by lia. exact H2.
+    + intros [H1 H2]. destruct (Nat.eq_dec i n) as [->|Hne].
+      * rewrite Nat.sub_diag in H2. cbn in H2. injection H2 as <-. now left.
+      * right. split; [lia|]. replace (i - n) with (S (i - S n)) in H2 by lia. exact H2.
+Qed.
+
+Lemma spec_stream_in levf (ws : list (text * meta)) x d i e :
+  In (i, e) (spec_stream levf ws x d) <->
+  exists w md, nth_error ws i = Some (w, md) /\ e = levf x w /\ e <= d.
+Proof.
+  unfold spec_stream. rewrite in_flat_map. split.
+  - intros ([j [w md]] & Hin & H). cbn [fst snd] in H. apply enum_from_in in Hin as [_ Hn].
+    rewrite Nat.sub_0_r in Hn. destruct (Nat.leb_spec (levf x w) d); [|contradiction].
+    destruct H as [H|[]]. injection H as -> <-. exists w, md. repeat split; assumption.
+  - intros (w & md & Hn & -> & Hle). exists (i, (w, md)). split.
+    + apply enum_from_in. rewrite Nat.sub_0_r. split; [lia|exact Hn].
+    + cbn [fst snd]. destruct (Nat.leb_spec (levf x w) d); [now left|lia].
+Qed.
+
+(* the length pre-filter of the extracted driver does not change the stream *)
+Theorem spec_stream_fast_eq ws x d : spec_stream_fast lev_fast ws x d = spec_stream lev ws x d.
+Proof.
+  unfold spec_stream_fast, spec_stream. apply flat_map_ext. intros [i [w md]]. cbn [fst snd].
+  rewrite lev_fast_correct. pose proof (lev_len x w) as [L1 L2].
+  destruct (Nat.ltb_spec (length x + d) (length w)); destruct (Nat.ltb_spec (length w + d) (length x));
+    cbn [orb]; try reflexivity; destruct (Nat.leb_spec (lev x w) d); try reflexivity; lia.
+Qed.
+
+(* ------------------------------------------------------------------------------------------ *)
+(** * FstDictionary::fuzzy_match: every admissible outcome *)
+Lemma fres_eqb_eq a b : fres_eqb a b = true -> a = b.
+Proof.
+  unfold fres_eqb. intros H. apply andb_true_iff in H as [H H3]. apply andb_true_iff in H as [H1 H2].
+  apply text_eqb_eq in H1. apply Nat.eqb_eq in H2, H3. destruct a, b; cbn in *; now subst.
+Qed.
+
+Lemma sorted_by_dist_sorted l : sorted_by_dist l = true -> StronglySorted (fun a b => r_dist a <= r_dist b) l.
+Proof.
+  induction l as [|a l IH]; intros H; [constructor|].
+  destruct l as [|b l]; [repeat constructor|].
+  cbn [sorted_by_dist] in H. apply andb_true_iff in H as [H1 H2]. apply Nat.leb_le in H1.
+  specialize (IH H2). constructor; [exact IH|].
+  inversion IH as [|? ? _ Hb]; subst. constructor; [exact H1|].
+  eapply Forall_impl; [|exact Hb]. cbn. intros; lia.
+Qed.
+
+Lemma words_nodup_nodup l : words_nodup l = true -> NoDup (map r_word l).
+Proof.
+  induction l as [|a l IH]; cbn [words_nodup map]; intros H; [constructor|].
+  apply andb_true_iff in H as [H1 H2]. constructor; [|now apply IH].
+  intros Hin. apply in_map_iff in Hin as (b & E & Hb).
+  apply negb_true_iff in H1. assert (existsb (same_word a) l = true); [|congruence].
+  apply existsb_exists. exists b. split; [exact Hb|]. unfold same_word. rewrite E. apply text_eqb_refl.
+Qed.
+
+Lemma nub_words_covers l : forall m, In m l -> exists m', In m' (nub_words l) /\ r_word m' = r_word m.
+Proof.
+  induction l as [|a l IH]; intros m Hin; [contradiction|]. cbn [nub_words].
+  destruct (existsb (same_word a) l) eqn:E.
+  - destruct Hin as [<-|Hin]; [|now apply IH].
+    apply existsb_exists in E as (b & Hb & Eb). apply text_eqb_eq in Eb.
+    destruct (IH b Hb) as (m' & Hm' & Ew). exists m'. split; [exact Hm'|congruence].
+  - destruct Hin as [<-|Hin]; [exists a; split; [now left|reflexivity]|].
+    destruct (IH m Hin) as (m' & Hm' & Ew). exists m'. split; [now right|exact Ew].
+Qed.
+
+Lemma max_dist_ge l x : In x l -> r_dist x <= max_dist l.
+Proof.
+  induction l as [|a l IH]; intros H; [contradiction|]. cbn [max_dist fold_right].
+  destruct H as [<-|H]; [lia|]. specialize (IH H). unfold max_dist in IH. lia.
+Qed.
+
+Section FstFuzzy.
+  Variable is_lower : char -> bool.
+  Variable lower : char -> list char.
+  Variable stream : list (text * meta) -> text -> nat -> list (nat * nat).
+  Notation fst_new := (fst_new is_lower lower).
+
+  (* every outcome the unstable sorts of FstDictionary::fuzzy_match may produce *)
+  Definition fst_fuzzy_outcome (f : fst_dict) (q lq : text) (d k : nat) (r : list fres) : Prop :=
+    exists merged, fst_merged stream f (normalized q) lq d = Ok merged /\ fst_admissible merged k r = true.
+
+  Variable f : fst_dict.
+  Variable d : nat.
+  (* the contract of fst::Map::search_with_state + levenshtein_automata for this dictionary's word
+     list and this bound (monitored by the harness for max_distance <= 3) *)
+  Hypothesis stream_contract : forall x, stream (f_words f) x d = spec_stream lev (f_words f) x d.
+
+  Lemma stream_in x i e : In (i, e) (stream (f_words f) x d) ->
+    exists w md, nth_error (f_words f) i = Some (w, md) /\ e = lev x w /\ e <= d.
+  Proof. rewrite stream_contract. apply spec_stream_in. Qed.
+
+  (* the zip loop never indexes out of range, and keeps only true (word, distance) pairs *)
+  Lemma fst_merged_ok qn lq :
+    exists merged, fst_merged stream f qn lq d = Ok merged /\
+      forall x, In x merged ->
+        In (r_word x, r_meta x) (f_words f) /\
+        (r_dist x = lev qn (r_word x) \/ r_dist x = lev lq (r_word x)) /\ r_dist x <= d.
+  Proof.
+    unfold fst_merged.
+    set (g := fun ul => let '(ci, ed) := zip_choose ul in
+                        do wm <- nth_chk (f_words f) ci; Ok (mkfres (fst wm) ed (snd wm))).
+    assert (Hg : forall ul, In ul (combine (stream (f_words f) qn d) (stream (f_words f) lq d)) ->
+                 exists x, g ul = Ok x /\ In (r_word x, r_meta x) (f_words f) /\
+                           (r_dist x = lev qn (r_word x) \/ r_dist x = lev lq (r_word x)) /\ r_dist x <= d).
+    { intros [[iu du] [il dl]] Hin. pose proof (in_combine_l _ _ _ _ Hin) as Hu.
+      pose proof (in_combine_r _ _ _ _ Hin) as Hl.
+      apply stream_in in Hu as (wu & mu & Nu & Eu & Lu). apply stream_in in Hl as (wl & ml & Nl & El & Ll).
+      unfold g, zip_choose. destruct (du <=? dl).
+      - rewrite (nth_chk_ok _ _ _ Nu). cbn [bind fst snd]. eexists. split; [reflexivity|]. cbn [r_word r_meta r_dist].
+        split; [eapply nth_error_In; exact Nu|]. split; [now left|exact Lu].
+      - rewrite (nth_chk_ok _ _ _ Nl). cbn [bind fst snd]. eexists. split; [reflexivity|]. cbn [r_word r_meta r_dist].
+        split; [eapply nth_error_In; exact Nl|]. split; [now right|exact Ll]. }
+    destruct (map_res_total g _ (fun ul H => let '(ex_intro _ x (conj E _)) := Hg ul H in ex_intro _ x E)) as [merged Em].
+    exists merged. split; [exact Em|].
+    apply map_res_forall2 in Em. intros x Hx.
+    assert (exists ul, In ul (combine (stream (f_words f) qn d) (stream (f_words f) lq d)) /\ g ul = Ok x) as (ul & Hul & Eg).
+    { clear -Em Hx. induction Em as [|a b l l' Hab _ IH]; [contradiction|].
+      destruct Hx as [<-|Hx]; [exists a; split; [now left|exact Hab]|].
+      destruct (IH Hx) as (ul & H1 & H2). exists ul. split; [now right|exact H2]. }
+    destruct (Hg ul Hul) as (x' & Eg' & P). rewrite Eg in Eg'. injection Eg' as <-. exact P.
+  Qed.
+
+  (* soundness, order, cap, no repetition — for every admissible outcome *)
+  Theorem fst_fuzzy_sound q lq k r :
+    fst_fuzzy_outcome f q lq d k r ->
+    (forall x, In x r ->
+       In (r_word x, r_meta x) (f_words f) /\
+       (r_dist x = lev (normalized q) (r_word x) \/ r_dist x = lev lq (r_word x)) /\ r_dist x <= d) /\
+    StronglySorted (fun a b => r_dist a <= r_dist b) r /\ length r <= k /\ NoDup (map r_word r).
+  Proof.
+    intros (merged & Em & Hadm).
+    destruct (fst_merged_ok (normalized q) lq) as (merged' & Em' & Hm). rewrite Em in Em'. injection Em' as <-.
+    unfold fst_admissible in Hadm. repeat (apply andb_true_iff in Hadm as [Hadm ?]).
+    repeat split.
+    - rewrite forallb_forall in H1. apply H1 in H3. apply existsb_exists in H3 as (m & Hin & E).
+      apply fres_eqb_eq in E. subst m. now apply Hm.
+    - rewrite forallb_forall in H1. apply H1 in H3. apply existsb_exists in H3 as (m & Hin & E).
+      apply fres_eqb_eq in E. subst m. now apply Hm.
+    - rewrite forallb_forall in H1. apply H1 in H3. apply existsb_exists in H3 as (m & Hin & E).
+      apply fres_eqb_eq in E. subst m. now apply Hm.
+    - now apply sorted_by_dist_sorted.
+    - apply Nat.eqb_eq in H0. lia.
+    - now apply words_nodup_nodup.
+  Qed.
+
+  (* for a lower-case query (String::to_lowercase leaves the normalised query unchanged) the two
+     streams coincide, and no word of the FST within the bound is missed: it is returned, unless the
+     result is full of words that are at least as close *)
+  Theorem fst_fuzzy_complete q k r :
+    fst_fuzzy_outcome f q (normalized q) d k r ->
+    forall w md, In (w, md) (f_words f) -> lev (normalized q) w <= d ->
+      (exists x, In x r /\ r_word x = w) \/
+      (length r = k /\ forall x, In x r -> r_dist x <= lev (normalized q) w).
+  Proof.
+    intros (merged & Em & Hadm) w md Hin Hd. set (qn := normalized q) in *.
+    destruct (fst_merged_ok qn qn) as (merged' & Em' & Hm). rewrite Em in Em'. injection Em' as <-.
+    (* w's pair is in the stream, hence an entry for w is in merged *)
+    assert (exists m0, In m0 merged /\ r_word m0 = w) as (m0 & Hm0 & Ew).
+    { apply In_nth_error in Hin as (i & Hi).
+      assert (Hs : In (i, lev qn w) (stream (f_words f) qn d)).
+      { rewrite stream_contract. apply spec_stream_in. exists w, md. repeat split; assumption. }
+      unfold fst_merged in Em. apply map_res_forall2 in Em.
+      assert (Hc : In ((i, lev qn w), (i, lev qn w)) (combine (stream (f_words f) qn d) (stream (f_words f) qn d))).
+      { clear -Hs. induction (stream (f_words f) qn d) as [|a l IH]; [contradiction|].
+        cbn [combine]. destruct Hs as [->|Hs]; [now left|right; now apply IH]. }
+      clear -Em Hc Hi. induction Em as [|a b l l' Hab _ IH]; [contradiction|].
+      destruct Hc as [->|Hc].
+      - exists b. split; [now left|]. unfold zip_choose in Hab. rewrite Nat.leb_refl in Hab.
+        rewrite (nth_chk_ok _ _ _ Hi) in Hab. cbn [bind fst snd] in Hab. injection Hab as <-. reflexivity.
+      - destruct (IH Hc) as (m0 & H1 & H2). exists m0. split; [now right|exact H2]. }
+    unfold fst_admissible in Hadm. repeat (apply andb_true_iff in Hadm as [Hadm ?]).
+    rewrite forallb_forall in H. specialize (H m0 Hm0). apply orb_true_iff in H as [H|H].
+    - left. apply existsb_exists in H as (x & Hx & E). apply text_eqb_eq in E. exists x. split; [exact Hx|congruence].
+    - destruct (existsb (same_word m0) r) eqn:Ein.
+      { left. apply existsb_exists in Ein as (x & Hx & E). apply text_eqb_eq in E. exists x. split; [exact Hx|congruence]. }
+      right. apply existsb_exists in H as (m' & Hm' & E). apply andb_true_iff in E as [E1 E2].
+      apply text_eqb_eq in E1. apply Nat.leb_le in E2.
+      assert (Dm' : r_dist m' = lev qn w).
+      { destruct (Hm m' Hm') as (_ & [D|D] & _); rewrite D; congruence. }
+      split.
+      + (* the result is full: its words are distinct words of merged, and w is another one *)
+        apply Nat.eqb_eq in H0. apply words_nodup_nodup in H2.
+        destruct (nub_words_covers merged m0 Hm0) as (n0 & Hn0 & En0).
+        assert (Hlt : S (length r) <= length (nub_words merged)).
+        { rewrite <- (map_length r_word r), <- (map_length r_word (nub_words merged)).
+          apply (NoDup_incl_length (l := w :: map r_word r)).
+          - constructor; [|exact H2]. intros Hc. apply in_map_iff in Hc as (x & Ex & Hx).
+            assert (existsb (same_word m0) r = true); [|congruence].
+            apply existsb_exists. exists x. split; [exact Hx|]. unfold same_word. rewrite Ex, Ew. apply text_eqb_refl.
+          - intros y [<-|Hy].
+            + apply in_map_iff. exists n0. split; [congruence|exact Hn0].
+            + apply in_map_iff in Hy as (x & <- & Hx). rewrite forallb_forall in H1.
+              apply H1 in Hx. apply existsb_exists in Hx as (m & Hmm & E). apply fres_eqb_eq in E. subst m.
+              destruct (nub_words_covers merged x Hmm) as (n & Hn & En). apply in_map_iff. exists n. split; [exact En|exact Hn]. }
+        lia.
+      + intros x Hx. pose proof (max_dist_ge r x Hx). lia.
+  Qed.
+End FstFuzzy.
